@@ -55,3 +55,21 @@ Proof.
   exists o. split; [exact Ho|].
   exact (RenderHTML_safe_inert_xhtml demo_cfg [60;34] demo_tree o eq_refl eq_refl C03_demo_wf Ho).
 Qed.
+
+(* ---------------- Part 3: the whole pipeline for the default parser ----------------
+   ConvertModelC (model/ParseChecked.v) = the parser model (model/BlockParse.v, InlineParse.v:
+   parser.go, the block and inline parsers and ProcessDelimiters of the default configuration),
+   its output checked with wf_tree, followed by RenderHTML.  No hypothesis on the source or the
+   tree: whatever safe-mode conversion of the model returns is inert.  The model's trees and
+   output bytes are compared with goldmark's on every run (case kinds ParseTree, Convert). *)
+Require Import GM.model.ParseI GM.model.ParseChecked GM.proofs.ParseCheckedProofs.
+Theorem C03_convert_safe_inert : forall c src o, unsafe c = false -> ConvertModelC c src = Ok o -> Inert o.
+Proof. exact ConvertModelC_safe_inert. Qed.
+Print Assumptions C03_convert_safe_inert.
+Theorem C03_convert_safe_inert_xhtml : forall c src o, unsafe c = false -> xhtml c = true ->
+  ConvertModelC c src = Ok o -> InertX o.
+Proof. exact ConvertModelC_safe_inert_xhtml. Qed.
+Print Assumptions C03_convert_safe_inert_xhtml.
+(* non-vacuity: the pipeline returns a result on a document with raw HTML, an entity and a link *)
+Example C03_convert_demo : exists o, ConvertModelC demo_cfg [60;98;62;32;38;97;109;112;59;32;91;120;93;40;47;117;41;10] = Ok o.
+Proof. eexists. vm_compute. reflexivity. Qed.
